@@ -363,7 +363,7 @@ def main():
         shapes, geoms = [(1, 5), (2, 6), (3, 8), (4, 10)], ['g1', 'g2']
     else:
         shapes, geoms = [(2, 6), (3, 7)], ['g1']
-    ck.bounds = dict(shapes=shapes, geometries=[inject.GEOMS[g] for g in geoms], profiles=PROFILES, drift='[-4,4] channels/step incl. 0', width='[0.05,10] channels')
+    ck.bounds = dict(shapes=shapes + ([(1, 5)] if not ck.thorough else []), geometries=[inject.GEOMS[g] for g in geoms], profiles=PROFILES, drift='[-4,4] channels/step incl. 0', width='[0.05,10] channels')
     jobs = []
     for (T, Fc) in shapes:
         for geom in geoms:
@@ -374,6 +374,12 @@ def main():
                     for smear in (False, True):
                         for dsign in (-1, 0, 1):
                             jobs.append(('job', (T, Fc, asc, kind, smear, geom, ck.tier, dsign)))
+    if not ck.thorough:
+        # a single integration: every quantity with a factor (tchans - 1) vanishes
+        for kind in ('box', 'gaussian'):
+            for smear in (False, True):
+                for dsign in (-1, 1):
+                    jobs.append(('job', (1, 5, False, kind, smear, 'g1', ck.tier, dsign)))
     for kind in PROFILES:
         for order in (0, 1):
             jobs.append(('job_two_frames', (kind, kind in ('box', 'gaussian'), order)))
